@@ -94,8 +94,10 @@ def shrink(built, feat, clause, structured, eol, macros):
     return nn, True
 
 
-def sig_of(clause, structured, nn):
+def sig_of(clause, structured, nn, macros=None):
     parts = ["%s=%s" % (k, nn[k]) for k in sorted(nn)]
+    if macros is not None and "macro" in nn:
+        parts.append("macros=" + "+".join("%s::%s" % tuple(m) for m in macros))
     return "C10.%s|%s|%s" % (clause, "structured" if structured else "unstructured", ",".join(parts) or "neutral")
 
 
@@ -121,7 +123,7 @@ def work(job):
         clause = clauses[0]
         nn, alone = shrink(built, it.stmt.feat, clause, structured, eol, macros)
         if alone:
-            sig = sig_of(clause, structured, nn)
+            sig = sig_of(clause, structured, nn, macros)
         else:
             # cascade: fails only in the company of the other items of its file -> reduce the file
             rows2 = [x.stmt.feat for x in gf.stmts()]
@@ -163,6 +165,9 @@ MACRO_SETS = [
     gen.DEFAULT_MACROS,
     [("log", "info")],
     [("tracing", "event_info"), ("log", "info"), ("log", "infox"), ("my_log", "w"), ("log", "_e")],
+    # the same macro name under several modules, module names that are prefixes of each other
+    [("log", "info"), ("tracing", "info"), ("log", "warn"), ("slog", "warn"), ("logger", "info")],
+    [("a::b", "note"), ("a", "note"), ("b", "note"), ("a::b::c", "warn")],
 ]
 
 
